@@ -233,6 +233,7 @@ func (l *fileBasedLoader) ensureAllIndexed() {
 func (l *fileBasedLoader) ensureIndexed(sp SmartPath) map[string][]string {
 	if !sp.Indexed() {
 		sp.SetIndexed()
+		verifhook.PointRW("index.building", &l.lock)
 		l.addToIndex(sp)
 	}
 	return l.index[sp.Extension()]
